@@ -11,20 +11,14 @@ Open Scope string_scope.
 Lemma gen_cfg_ok : cfg_ok gen_cfg = true.
 Proof. vm_compute. reflexivity. Qed.
 
-Definition hist_wf (ops : list op) : bool := forallb op_wf ops.
-
-(** * The property at full strength (DuckDB's observed behaviour on a failed COPY: [duckdb_residue]) *)
-Definition C14_modes_full : Prop :=
-  forall ops, hist_wf ops = true ->
-    s_run s_init ops = (abs (fst (m_run gen_cfg duckdb_residue m_init ops)), snd (m_run gen_cfg duckdb_residue m_init ops)).
-Definition C14_catalog_full : Prop :=
-  forall ops k,
-    ahas k (m_tabs (fst (m_run gen_cfg duckdb_residue m_init ops)))
-    = live (fun _ => false) ops (snd (m_run gen_cfg duckdb_residue m_init ops)) k.
-Definition C14_faults_full : Prop :=
-  forall st o d, is_write o = true -> op_df o = Some d -> df_bad d = true ->
-    fst (m_step gen_cfg duckdb_residue st o) = st.
-Definition C14_full : Prop := C14_modes_full /\ C14_catalog_full /\ C14_faults_full.
+(** * The property at full strength (DuckDB's observed behaviour on a failed COPY: [duckdb_residue]);
+      [modes_full] = every well-formed history gives the spec's outcomes and final tables/files,
+      [catalog_full] = tableExists is "created and not dropped since", [faults_full] = a failing write changes nothing.
+      It is FALSE of the faithful model on the unchanged tree: see props/C14_refuted.v. *)
+Definition C14_modes_full : Prop := modes_full gen_cfg duckdb_residue.
+Definition C14_catalog_full : Prop := catalog_full gen_cfg duckdb_residue.
+Definition C14_faults_full : Prop := faults_full gen_cfg duckdb_residue.
+Definition C14_full : Prop := property_full gen_cfg duckdb_residue.
 
 (** * What is proved *)
 
@@ -151,67 +145,3 @@ Example C14_fault_hyp_file :
   /\ snd (m_step gen_cfg duckdb_residue st (OpWrite "p" FCsv (Some "overwrite") None (DBad fr_file))) = OErr EFailed.
 Proof. vm_compute. split; reflexivity. Qed.
 
-(** * Refutations of [C14_full] on the faithful model (each is replayed on the implementation by checks/c14.py) *)
-Definition fr_ab : tbl := mkTbl [("a", TInt); ("b", TInt)] [[VInt 1; VInt 2]].
-Definition fr_ba : tbl := mkTbl [("b", TInt); ("a", TInt)] [[VInt 10; VInt 20]].
-Definition fr_c : tbl := mkTbl [("c", TBool)] [[VBool true]].
-
-Ltac refute_modes w :=
-  let H := fresh "H" in
-  intro H; specialize (H w); vm_compute in H; specialize (H eq_refl); discriminate H.
-
-(** 1. df.write.mode("overwrite").parquet(p): the writer's mode never reaches _write (FileExistsError) *)
-Theorem C14_refuted_writer_mode_ignored_for_paths : ~ C14_modes_full.
-Proof.
-  refute_modes [OpWrite "p" FParquet None None (DGood fr_ab); OpWrite "p" FParquet None (Some "overwrite") (DGood fr_ba);
-                OpReadPath "p" FParquet].
-Qed.
-
-(** 2. saveAsTable(mode="append") on a table that does not exist yet raises instead of creating it *)
-Theorem C14_refuted_append_to_absent_table : ~ C14_modes_full.
-Proof. refute_modes [OpSave "t" (Some "append") None (DGood fr_ab); OpExists "t"]. Qed.
-
-(** 3. saveAsTable(mode="append") inserts by position; PySpark resolves the columns by name *)
-Theorem C14_refuted_append_is_positional : ~ C14_modes_full.
-Proof.
-  refute_modes [OpSave "t" None None (DGood fr_ab); OpSave "t" (Some "append") None (DGood fr_ba); OpReadTable "t"].
-Qed.
-
-(** 4. session.table after the table was replaced with other columns reads the stale cached column list *)
-Theorem C14_refuted_stale_schema_cache : ~ C14_modes_full.
-Proof.
-  refute_modes [OpSave "t" None None (DGood fr_ab); OpReadTable "t"; OpSave "t" (Some "overwrite") None (DGood fr_c);
-                OpReadTable "t"].
-Qed.
-
-(** 5. byName.insertInto on a table the session has not read yet is positional *)
-Theorem C14_refuted_byname_uncached_is_positional : ~ C14_modes_full.
-Proof.
-  refute_modes [OpSave "t" None None (DGood fr_ab); OpInsert "t" true (DGood fr_ba); OpReadTable "t"].
-Qed.
-
-(** 6. byName.insertInto orders by the stale cached columns after the table was replaced: the values land in the wrong
-      columns (seen in the final table contents, not in any outcome) *)
-Theorem C14_refuted_byname_stale_cache : ~ C14_modes_full.
-Proof.
-  refute_modes [OpSave "t" None None (DGood fr_ab); OpReadTable "t"; OpSave "t" (Some "overwrite") None (DGood fr_ba);
-                OpInsert "t" true (DGood fr_ab)].
-Qed.
-
-(** 7. file targets cannot be appended to (NotImplementedError) *)
-Theorem C14_refuted_path_append_unsupported : ~ C14_modes_full.
-Proof.
-  refute_modes [OpWrite "p" FParquet None None (DGood fr_ab); OpWrite "p" FParquet (Some "append") None (DGood fr_ab)].
-Qed.
-
-(** 8. runtime half: with what DuckDB leaves behind when COPY to a *new* path fails, the fault clause is false *)
-Theorem C14_refuted_failed_copy_leaves_partial_file : ~ C14_faults_full.
-Proof.
-  intro H. specialize (H m_init (OpWrite "p" FCsv None None (DBad fr_ab)) (DBad fr_ab) eq_refl eq_refl eq_refl).
-  vm_compute in H. discriminate H.
-Qed.
-
-Theorem C14_full_is_false : ~ C14_full.
-Proof. intros [H _]. exact (C14_refuted_writer_mode_ignored_for_paths H). Qed.
-Print Assumptions C14_full_is_false.
-Print Assumptions C14_refuted_failed_copy_leaves_partial_file.
